@@ -9,7 +9,6 @@
     with operands whose every operation is a logged event (result, event order, exceptions),
     shape of the output (every position the configuration names holds a name/literal,
     temporaries assigned once), lazy constructs rejected or left untouched
- 5. evaluation-order semantics S of the model validated against CPython on the same programs
 """
 import ast
 import copy
@@ -28,7 +27,7 @@ from translate import c18_table as T
 
 KNOWN = {
     'anf-sibling-order', 'anf-assign-target-order', 'anf-dict-order', 'anf-slice-hoisted',
-    'anf-target-hoisted', 'anf-operator-hoisted', 'anf-pending-lost', 'anf-starred-unpack-order',
+    'anf-target-hoisted', 'anf-operator-hoisted', 'anf-boolop-test-double-truth', 'anf-pending-lost', 'anf-starred-unpack-order',
 }
 
 
@@ -128,7 +127,7 @@ def shape_failures(orig, out, config):
     return bad[:3]
 
 
-def classify(orig, out, config, what):
+def classify(orig, out, config, what, detail=None):
     """Narrow classifiers of the known findings.  -> finding id or None"""
     from malt.pyct.common_transformers import anf
     # a slice extracted into an assignment (`tmp = 1:2`): does not compile
@@ -167,6 +166,13 @@ def classify(orig, out, config, what):
         used = set(tmp_names(out))
         if used - assigned:
             return 'anf-pending-lost'
+    # `if a and b:` -> `tmp = a and b; if tmp:` tests the truth of the deciding operand twice
+    if what == 'order' and isinstance(detail, dict) and any(
+            isinstance(n, ast.If) and isinstance(n.test, ast.BoolOp) for n in ast.walk(orig)):
+        o, t_ = detail['original'], detail['transformed']
+        nb = lambda ev: [e for e in ev if not e.startswith('bool(')]   # noqa
+        if o['outcome'] == t_['outcome'] and nb(o['events']) == nb(t_['events']) and len(t_['events']) > len(o['events']):
+            return 'anf-boolop-test-double-truth'
     t = anf.AnfTransformer(_ctx(), config)
     m = G.Mirror(t._should_transform, anf._is_trivial)
     for s in orig.body:
@@ -285,8 +291,8 @@ def _programs(run):
     return progs
 
 
-def _replay_doc(src, cd, kind, what, detail, out):
-    return {'program': src, 'config': cd, 'failure_kind': kind, 'what': what, 'detail': detail,
+def _replay_doc(src, cd, kind, what, detail, out, oseed=0):
+    return {'oracle_seed': oseed, 'program': src, 'config': cd, 'failure_kind': kind, 'what': what, 'detail': detail,
             'transformed': unparse(out) if out is not None else None,
             'replay': 'cd /verif && bin/check C18 --replay <this file>'}
 
@@ -320,7 +326,6 @@ def _check(run):
     cases = []
     failures = []      # (kind, what, doc, classification)
     stats = {'accepted': 0, 'rejected': 0, 'crashed': 0, 'guard_holds': 0, 'in_model': 0, 'changed': 0}
-    sem_cases = []
     for idx, (stream, src, cfg, cd) in enumerate(progs):
         run.count()
         orig = ast.parse(src).body[0]
@@ -334,8 +339,8 @@ def _check(run):
                 stats['changed'] += 1
                 run.nontriv(str(idx))
         for kind, what, detail in fails:
-            cl = classify(orig, out, cfg, kind)
-            failures.append((kind, what, _replay_doc(src, cd, kind, what, detail, out), cl))
+            cl = classify(orig, out, cfg, kind, detail)
+            failures.append((kind, what, _replay_doc(src, cd, kind, what, detail, out, run.seed + idx), cl))
         if idx % 97 == 0:
             run.sample({'stream': stream, 'program': src, 'config': cd, 'status': status,
                         'transformed': unparse(out) if out is not None else None})
@@ -344,7 +349,7 @@ def _check(run):
             if any(X.TMP_RE.match(n.id) for n in ast.walk(orig) if isinstance(n, ast.Name)):
                 raise X.Untranslatable('gensym-shaped user name')
             if cfg is not None and any(a is anf.REPLACE and (pt is anf.ANY or pt.child is anf.ANY) for pt, a in cfg) and \
-                    any(isinstance(n, (ast.MatMult, ast.BoolOp)) for n in ast.walk(orig)):
+                    any(isinstance(n, (ast.MatMult, ast.BoolOp, ast.Lambda)) for n in ast.walk(orig)):
                 raise X.Untranslatable('operator tokens exposed to the configuration')
             p = X.export_block(orig.body)
             c = X.export_config(cfg, anf)
@@ -392,6 +397,7 @@ def _check(run):
     # 5. verdict
     seen = set()
     unknown = 0
+    failures.sort(key=lambda f: len(f[2]['program']))      # report the smallest failing program of each kind
     for kind, what, doc, cl in failures:
         if cl in KNOWN:
             if run.violation(what, doc, classify=cl):
@@ -426,7 +432,7 @@ def replay(path):
     if 'program' in r:
         from malt.pyct.common_transformers import anf   # noqa
         cfg = None if r['config'] == 'default' else eval(r['config'], {'anf': anf, 'ast': ast})
-        status, fails, out = oracle(r['program'], cfg, doc.get('seed', 0))
+        status, fails, out = oracle(r['program'], cfg, r.get('oracle_seed', 0))
         print('status now:', status)
         for f in fails:
             print('FAIL', f[0], f[1])
